@@ -336,3 +336,7 @@ register(_raw(Prop('C15', 'no input crashes the API; IsFrameRange = parser', pro
 register(Prop('C18', 'seqinfo reports the library parse', None, None, special=special.c18_special,
               partial='JSON well-formedness and the printers are observed, not proved; --format goes through text/template (the reformatted string is taken from the library)',
               rule='invocations of the built seqinfo binary: 1..64 patterns incl. duplicates/malformed, args vs stdin, option subsets, each run twice'))
+
+register(Prop('C17', 'seqls lists every selected file exactly once', None, None, special=special.c17_special,
+              partial='the Go scheduler, channels and fastwalk worker pool are not modelled: the pipeline is proved as a transition system, the binary is observed',
+              rule='generated trees (depth <= 4, hidden dirs/files, empty dirs, directory links; aliased/cyclic links for termination only) x flag subsets x mixed arguments x GOMAXPROCS 1/2/16 x workers 1/2/50, each run twice'))
